@@ -752,8 +752,11 @@ func runMutate(seed int64, n int, out string) {
 			idx++
 		}
 		evs, r = logOne(evs, r, idx, a.kind, a.x, a.op, seen, nil, accByKind)
+		if budget.Hung {
+			break
+		}
 	}
-	for i := 0; i < n; i++ {
+	for i := 0; i < n && !budget.Hung; i++ {
 		if i%8 == 0 {
 			kind, base = g.base()
 			// the valid object itself is part of the trace
